@@ -67,6 +67,7 @@ type Program struct {
 	maxRegionPaths int
 	lazyRegions    bool
 	symbolicMake   bool
+	noWitness      bool
 }
 
 func (p *Program) isRoot(pkg *ssa.Package) bool { return p.roots[pkg] }
@@ -358,6 +359,8 @@ func (P *Program) applyDirective(kind, rest string, cur *ssa.Package) error {
 				P.symbolicMake = true
 			case "no-region-merge":
 				P.regionMerge = false
+			case "no-witness":
+				P.noWitness = true
 			default:
 				return fmt.Errorf("unknown option %q", o)
 			}
